@@ -98,6 +98,7 @@ Fixpoint lookup {A} (k : str) (l : list (str * A)) : option A :=
 Definition in_ranges (r : list (N * N)) (c : N) : bool :=
   existsb (fun lh => (fst lh <=? c)%N && (c <=? snd lh)%N) r.
 
+Definition is_ascii (s : str) : bool := forallb (fun c => (c <=? 127)%N) s.   (* str.isascii *)
 Definition lower_ascii (c : N) : N := if ((65 <=? c) && (c <=? 90))%N then (c + 32)%N else c.
 Definition upper_ascii (c : N) : N := if ((97 <=? c) && (c <=? 122))%N then (c - 32)%N else c.
 Definition is_ascii_upper (c : N) : bool := ((65 <=? c) && (c <=? 90))%N.
@@ -198,6 +199,9 @@ Variable isalpha_c : N -> bool.      (* str.isalpha per code point *)
 Variable isprint_c : N -> bool.      (* str.isprintable per code point *)
 Variable foldc : N -> N.             (* str.casefold per code point (length preserving part) *)
 Variable titlec lowerc : N -> N.     (* str.capitalize: first / other code points *)
+(* false = the code before the repairs of C13-F2 (check_tag_formatting), C13-F3 (check_capitalization) and
+   C13-F4 (set_schema_prefix); true = the code as it is now *)
+Variable fixed : bool.
 
 Definition fold (s : str) : str := map foldc s.
 
@@ -219,7 +223,7 @@ Definition set_schema_prefix (ns : str) : res str :=
              end in
   match ns' with
   | [] => Ok []
-  | _ => if str_isalpha (drop_last ns') then Ok ns' else Exn HedFileError
+  | _ => if str_isalpha (drop_last ns') && (negb fixed || is_ascii ns') then Ok ns' else Exn HedFileError
   end.
 
 (* HedSchemaGroup.__init__ *)
@@ -365,15 +369,27 @@ Definition fmt_count (s : str) : nat :=
       else fmt_mid 0 false s
   end.
 
-Definition check_tag_formatting (org_tag : str) : list code := repeat NodeNameEmpty (fmt_count org_tag).
+(* since the repair the pattern is applied to the text after the namespace *)
+Definition check_tag_formatting (org_tag : str) : list code :=
+  repeat NodeNameEmpty
+    (fmt_count (if fixed then skipn (length (get_schema_namespace org_tag)) org_tag else org_tag)).
 
 (* TagValidator.check_capitalization; CAMEL_CASE_EXPRESSION matches iff an ASCII capital occurs *)
 Definition capitalize (s : str) : str :=
   match s with [] => [] | c :: r => titlec c :: map lowerc r end.
 Definition cap_warn (name : str) : bool :=
   negb (str_eqb name (capitalize name)) && negb (existsb is_ascii_upper name).
+(* since the repair the namespace is removed from org_base_tag before the node names are examined *)
+Definition cap_base (r : rtag) : str :=
+  let b := org_base_tag r in
+  if fixed then
+    match rt_ns r with
+    | [] => b
+    | ns => if prefixb ns b then skipn (length ns) b else b
+    end
+  else b.
 Definition check_capitalization (r : rtag) : list code :=
-  if existsb cap_warn (split_on ch_slash (org_base_tag r)) then [StyleWarning] else [].
+  if existsb cap_warn (split_on ch_slash (cap_base r)) then [StyleWarning] else [].
 
 (* GroupValidator.check_for_required_tags / check_multiple_unique_tags_exist *)
 Definition starts_with_fold (pre : str) (r : rtag) : bool := prefixb (fold pre) (fold (long_tag r)).
@@ -731,7 +747,7 @@ Definition load_file (isalpha_c : N -> bool) (rp : repo) (f : sfile) (into : opt
   end.
 
 (* _load_schema_version_sub *)
-Definition load_sub (isalpha_c : N -> bool) (rp : repo) (v ns : str) (into : option lschema) : lres lschema :=
+Definition load_sub (isalpha_c : N -> bool) (fixed : bool) (rp : repo) (v ns : str) (into : option lschema) : lres lschema :=
   match v with
   | [] => LErr SCHEMA_VERSION_INVALID
   | _ =>
@@ -744,7 +760,7 @@ Definition load_sub (isalpha_c : N -> bool) (rp : repo) (v ns : str) (into : opt
                  (fun L =>
                     match ns with
                     | [] => LOk L
-                    | _ => match set_schema_prefix isalpha_c ns with
+                    | _ => match set_schema_prefix isalpha_c fixed ns with
                            | Ok ns' => LOk (mkL ns' (l_library L) (l_version L) (l_with_std L) (l_merged L)
                                                (l_elem_domain L) (l_table L))
                            | Exn _ => LErr INVALID_LIBRARY_PREFIX
@@ -753,19 +769,19 @@ Definition load_sub (isalpha_c : N -> bool) (rp : repo) (v ns : str) (into : opt
            end
   end.
 
-Fixpoint load_rest (isalpha_c : N -> bool) (rp : repo) (vs : list str) (ns : str) (first : lschema) : lres lschema :=
+Fixpoint load_rest (isalpha_c : N -> bool) (fixed : bool) (rp : repo) (vs : list str) (ns : str) (first : lschema) : lres lschema :=
   match vs with
   | [] => LOk first
   | v :: rest =>
-      lbind (load_sub isalpha_c rp v ns (Some first))
+      lbind (load_sub isalpha_c fixed rp v ns (Some first))
         (fun L => match t_dups (l_table L) with
                   | _ :: _ => LErr SCHEMA_DUPLICATE_NAMES
-                  | [] => load_rest isalpha_c rp rest ns L
+                  | [] => load_rest isalpha_c fixed rp rest ns L
                   end)
   end.
 
 (* _load_schema_version *)
-Definition load_schema_version_1 (isalpha_c : N -> bool) (rp : repo) (xml_version : str) : lres lschema :=
+Definition load_schema_version_1 (isalpha_c : N -> bool) (fixed : bool) (rp : repo) (xml_version : str) : lres lschema :=
   let '(ns, v) := match xml_version with
                   | [] => ([], [])
                   | _ => split_ns xml_version
@@ -773,7 +789,7 @@ Definition load_schema_version_1 (isalpha_c : N -> bool) (rp : repo) (xml_versio
   let vs := match v with [] => [[]] | _ => split_on ch_comma v end in
   match vs with
   | [] => LErr SCHEMA_VERSION_INVALID
-  | v0 :: rest => lbind (load_sub isalpha_c rp v0 ns None) (load_rest isalpha_c rp rest ns)
+  | v0 :: rest => lbind (load_sub isalpha_c fixed rp v0 ns None) (load_rest isalpha_c fixed rp rest ns)
   end.
 
 Fixpoint lmapM {A B} (f : A -> lres B) (l : list A) : lres (list B) :=
@@ -783,12 +799,12 @@ Fixpoint lmapM {A B} (f : A -> lres B) (l : list A) : lres (list B) :=
   end.
 
 (* load_schema_version on a list: one schema, or a group (HedSchemaGroup.__init__ checks the prefixes) *)
-Definition load_schema_version (isalpha_c : N -> bool) (rp : repo) (l : list str) : lres (list lschema) :=
+Definition load_schema_version (isalpha_c : N -> bool) (fixed : bool) (rp : repo) (l : list str) : lres (list lschema) :=
   match l with
   | [] => LErr TYPE_ERROR
   | _ =>
       lbind (parse_version_list l)
-        (fun d => lbind (lmapM (fun kv => load_schema_version_1 isalpha_c rp (snd kv)) d)
+        (fun d => lbind (lmapM (fun kv => load_schema_version_1 isalpha_c fixed rp (snd kv)) d)
            (fun ss => match ss with
                       | [_] => LOk ss
                       | _ => if has_dup (map l_ns ss) then LErr SCHEMA_DUPLICATE_PREFIX else LOk ss
